@@ -77,6 +77,15 @@ class Registry:
 
         return deco
 
+    def lemma(self, name):
+        def deco(spec):
+            c = Contract("<lemma>", name, spec)
+            c.is_lemma = True
+            self.lemmas.append(c)
+            return spec
+
+        return deco
+
     def load_spec(self, path):
         import ast
 
